@@ -86,7 +86,7 @@ func TestLbvcBoundedReaders(t *testing.T) {
 			return
 		}
 		defer os.RemoveAll(dir)
-		lg, err := New(Options{Path: dir, MaxSegmentBytes: c.segBytes})
+		lg, err := New(Options{Path: dir, MaxSegmentBytes: c.segBytes, HWCheckpointInterval: time.Hour})
 		if err != nil {
 			return
 		}
